@@ -20,7 +20,7 @@ NoneReady(parts) == \A i \in 1..Len(parts) : ~parts[i][3]
 ReadyIds(parts) == {parts[i][1] : i \in {j \in 1..Len(parts) : parts[j][3]}}
 Tol == 40
 NoSetup == [gc |-> -1, parts |-> {}, t |-> 0, sig |-> {}, fires |-> 0, busy |-> FALSE, super |-> FALSE]
-(* per gate: the set-ups seen so far (by game count) and which one is current *)
+(* per gate: the set-ups seen so far (keyed by their sequence number in the trace; several may share a game count) and which one is current *)
 NoGate == [cur |-> -1, recs |-> <<>>, gcs |-> {}, firedGcs |-> <<>>, lastAct |-> -100000]
 G0 == [tr |-> -1, A |-> NoGate, B |-> NoGate, hasB |-> FALSE]
 Gt(gg, name) == IF name = "A" THEN gg.A ELSE gg.B
@@ -38,16 +38,16 @@ Upd(gg, k) ==
          Put(g0, t.gate, [(IF gt.cur \in gt.gcs THEN SetRec(gt, gt.cur, [CurRec(gt) EXCEPT !.super = TRUE]) ELSE gt)
                           EXCEPT !.lastAct = t.t])
     [] t.ev = "setup" ->
-         Put(g0, t.gate, [SetRec(gt, t.gc, [NoSetup EXCEPT !.gc = t.gc, !.parts = RangeOf(t.ids), !.t = t.t,
-                                                          !.busy = (t.t - gt.lastAct < 1000) \/ CurRec(gt).busy])
-                          EXCEPT !.cur = t.gc, !.lastAct = t.t])
+         Put(g0, t.gate, [SetRec(gt, t.seq, [NoSetup EXCEPT !.gc = t.gc, !.parts = RangeOf(t.ids), !.t = t.t,
+                                                           !.busy = (t.t - gt.lastAct < 1000) \/ CurRec(gt).busy])
+                          EXCEPT !.cur = t.seq, !.lastAct = t.t])
     [] t.ev = "readycall" ->
          Put(g0, t.gate, [(IF t.id \in CurRec(gt).parts /\ ~CurRec(gt).super
                            THEN SetRec(gt, gt.cur, [CurRec(gt) EXCEPT !.sig = @ \cup {t.id}]) ELSE gt)
                           EXCEPT !.lastAct = t.t])
     [] t.ev = "fire" ->
-         Put(g0, t.gate, [(IF t.gc \in gt.gcs THEN SetRec(gt, t.gc, [Rec(gt, t.gc) EXCEPT !.fires = @ + 1]) ELSE gt)
-                          EXCEPT !.firedGcs = Append(@, t.gc), !.lastAct = t.t])
+         Put(g0, t.gate, [(IF t.seq \in gt.gcs THEN SetRec(gt, t.seq, [Rec(gt, t.seq) EXCEPT !.fires = @ + 1]) ELSE gt)
+                          EXCEPT !.firedGcs = Append(@, t.seq), !.lastAct = t.t])
     [] t.ev = "restore" ->
          Put(g0, "B", LET a == g0.A  r == CurRec(a) IN
                       [NoGate EXCEPT !.cur = a.cur, !.gcs = {a.cur}, !.recs = [x \in {a.cur} |-> [r EXCEPT !.t = t.t, !.sig = ReadyIds(t.parts)]]])
@@ -72,10 +72,11 @@ CheckLine(k, gg) ==
        /\ Clause("C09_unknownRejected", (t.id \in c.parts) <=> (t.res = "ok"), "", k)
        /\ Clause("C09_unknownError", (t.id \notin c.parts) => t.res = "ErrParticipantNotFound", "", k)
   /\ t.ev = "fire" =>
-       LET r == Rec(gt, t.gc) IN
-       /\ Clause("C09_fireKnownSetup", t.gc \in gt.gcs, BusyTag(c), k)
-       /\ t.gc \in gt.gcs =>
+       LET r == Rec(gt, t.seq) IN        \* (the set-up a fire belongs to is named by the participants' indexes, see vh gate)
+       /\ Clause("C09_fireKnownSetup", t.seq \in gt.gcs, BusyTag(c), k)
+       /\ t.seq \in gt.gcs =>
             /\ Clause("C09_fireOnce", r.fires = 0, BusyTag(c), k)
+            /\ Clause("C09_fireReportsGc", t.gc = r.gc, BusyTag(c), k)
             /\ Clause("C09_fireReportsSetup", PartIds(t.parts) = r.parts /\ AllReady(t.parts), BusyTag(c), k)
             /\ Clause("C09_fireLegal", r.parts \subseteq r.sig \/ (~r.super /\ t.t - r.t >= t.toms * 1000 - Tol * 1000), BusyTag(c), k)
   /\ Clause("C09_callsReturn", t.ev # "hang", IF t.mode = "racy" THEN "KF-C09-stale-signal" ELSE "", k)
